@@ -30,7 +30,7 @@ def main():
         det = {}
         try:
             for c in checks:
-                env = dict(os.environ, VERIF_EVIDENCE_DIR="/tmp/verif-ev", VERIF_REPO=REPO)
+                env = dict(os.environ, VERIF_EVIDENCE_DIR="/tmp/verif-ev-" + os.path.basename(REPO), VERIF_REPO=REPO)
                 p = sh(os.path.join(V, "check"), c, "--tier", "quick", env=env, cwd=V)
                 sigs = [l.split("sig=")[1].split(" ")[0] for l in p.stdout.splitlines() if "sig=" in l and "check=" in l]
                 det[c] = {"exit": p.returncode, "violation_sigs": sigs[:6]}
